@@ -27,6 +27,8 @@ THEOREMS = [
     "C34_chain_classification",
     "C34_chain_guard_needed",
     "C34_conversions_idempotent",
+    "C34_roundtrip_semver_trailing_newline",
+    "C34_whitespace_irrelevant",
     "C34_spellings_injective",
     "C34_tag_source_shape",
     "C34_tag_pipeline",
